@@ -517,11 +517,12 @@ Theorem C05_empty_option_previous_refuted :
 Proof. exact empty_option_previous_refuted. Qed.
 Print Assumptions C05_empty_option_previous_refuted.
 
-(* LIVE known finding (C05 + C16): the compiler accepts identifiers with non-ASCII letters (`object Élan { field
-   naïve string }`; the BCL lexer takes unicode letters) and builds message Élan { string naïve = 1; }. The
-   descriptor satisfies wf_dfile (identifiers are byte strings at token level), but its printed tokens are not tokens of
-   the lexer model: the one-space rendering does not scan back to them (the real protocompile lexer: invalid
-   character). The text theorem C05_text_roundtrip does not apply to it: its is_layout premise has no witness. *)
+(* identifiers with non-ASCII letters: the compiler accepted `object Élan { field naïve string }` (the BCL lexer takes
+   unicode letters) and built message Élan { string naïve = 1; } until /repo c71d8d9 (cmpb) made such names a
+   conversion error. The descriptor satisfies wf_dfile (identifiers are byte strings at token level), but its printed
+   tokens are not tokens of the lexer model: the one-space rendering does not scan back to them (the real
+   protocompile lexer: invalid character). So the is_layout premise of C05_text_roundtrip is not implied by wf_dfile;
+   it is evaluated on every printed file of a run. *)
 Theorem C05_non_ascii_identifier_refuted :
   wf_dfile w3_imp w3_file
   /\ forallb tok_ok w3_tokens = false
